@@ -13,11 +13,14 @@
 (*                        -> AlgoByName violated by the grant history a, c, a              *)
 (*   IterRemove = TRUE    the seed request's name list walked while names are removed from *)
 (*                        it -> AlgoUpstream violated by two adjacent proxy-only names     *)
+(*   ReAddOnConsume = TRUE  the entries left under a name after a one-shot cap was used up  *)
+(*                        re-inserted one by one with add() (which prepends) instead of    *)
+(*                        extend() -> AlgoByName violated with three entries under a name  *)
 (* and that the candidate repairs (both FALSE) refine the property.        *)
 (***************************************************************************)
 EXTENDS Caps
 
-CONSTANTS FirstMatch, SwappedIndex, DedupeAdd, IterRemove, Depth
+CONSTANTS FirstMatch, SwappedIndex, DedupeAdd, IterRemove, ReAddOnConsume, Depth
 VARIABLE md          \* md[r]: the CapsMultiDict of region r as its item sequence <<name, type, url>>
 avars == <<vars, md>>
 Bound == TLCGet("level") <= Depth
@@ -71,7 +74,7 @@ ASeedResp(r, i) ==
            wrapped == SelectSeq(granted, LAMBDA n : n \in Asset)
            wraps == [k \in DOMAIN wrapped |-> Item(WName(wrapped[k]), "W", Viewer(r, g)[wrapped[k]])]
        IN md' = [md EXCEPT ![r] = MdAddAll(MdUpdate(@, grants), wraps)]
-ARegisterTemp(r, u) == RegisterTemp(r, u) /\ md' = [md EXCEPT ![r] = MdAdd(@, Item("UpTemp", "T", u))]
+ARegisterTemp(r, u, n) == RegisterTemp(r, u, n) /\ md' = [md EXCEPT ![r] = MdAdd(@, Item(n, "T", u))]
 (* register_proxy_cap: `if name in self.caps: cap_data = self.caps[name]; if <is proxy-only>: return url` *)
 AlgoProxyUrl(r, n) == IF Keep(md[r], n) = <<>> THEN ProxyUrl(r, n)
                       ELSE IF ~SwappedIndex THEN MdGet(md[r], n)
@@ -98,11 +101,12 @@ AResolveTemp(q) ==
     /\ ResolveTemp(q)
     /\ LET h == FirstRegion(1, q) IN
          IF h # None4 /\ h[2] = "T"
-         THEN md' = [md EXCEPT ![h[3]] = Drop(@, h[1]) \o RemoveFirstItem(Keep(@, h[1]), h[4])]
+         THEN md' = [md EXCEPT ![h[3]] = IF ReAddOnConsume THEN MdAddAll(Drop(@, h[1]), RemoveFirstItem(Keep(@, h[1]), h[4]))
+                                          ELSE Drop(@, h[1]) \o RemoveFirstItem(Keep(@, h[1]), h[4])]
          ELSE UNCHANGED md
 ANext == \/ \E r \in Regions : \/ \E w \in 1..7 : ASeedReq(r, w)
                                \/ \E i \in 1..9 : ASeedResp(r, i)
-                               \/ \E u \in TempUrls(r) : ARegisterTemp(r, u)
+                               \/ \E u \in TempUrls(r) : \E n \in TempNames : ARegisterTemp(r, u, n)
                                \/ \E n \in PONameSet : ARegisterProxy(r, n)
          \/ \E q \in TempReqs : AResolveTemp(q)
 ASpec == AInit /\ [][ANext]_avars
